@@ -13,7 +13,7 @@ for m in sorted(glob.glob("/tmp/mut/*C??/MUTANT/[0-9]")):
     if not os.path.exists(os.path.join(m, "meta.json")) or not os.path.exists(os.path.join(m, "patch.diff")):
         continue  # still being produced
     meta = json.load(open(os.path.join(m, "meta.json")))
-    confirmed = bool(ev.get("confirmed")) or (ev.get("demo_without_patch_rc") == 0 and ev.get("demo_with_patch_rc", 0) != 0 and tag in ("C06-1",))
+    confirmed = bool(ev.get("confirmed"))
     if not confirmed:
         print("skip (not confirmed):", tag)
         continue
